@@ -280,3 +280,136 @@ def generate_measure(cases: list, edges: str = 'set') -> dict:
                 st['examples'].append(['gen=impl!=hand', {'impl_error': im.get('error'), 'hand_error': mo.get('error'),
                                                           'n_edges': [len(im.get('edges', [])), len(mo.get('edges', []))]}])
     return st
+# genexec2 / serialisers (notes/NOTES_genexec2_serial.md): the DOCUMENTS of the generated `_to_dict` functions against the
+# dictionaries the real `_to_dict()` returns, key order included.  Lean's `Json` sorts object keys, so the driver renders a
+# Python value ordered: dictionary = ["d", [[key, value], ...]] (int keys as numbers, str keys as strings), list =
+# ["l", [...]], a `ttc` dictionary = ["t", [[key, text], ...]] (`PyDictS`: the value under `name` is the string, any other
+# value its JSON text), a non-empty `extras` dictionary = ["j", canonical JSON text].
+class _Extras(dict):
+    """an `extras` dictionary of the generated side: kept as canonical JSON text there (`.text`), so the order of its keys
+    (and of the keys of nested dictionaries) carries no information - compared through the canonical text of the real one"""
+
+class _Rec(dict):
+    """a dictionary with a fixed key set of the generated side (a record of the prelude): the order of ITS keys is not
+    represented by the translation - compared as a set of items (the values again with order)"""
+
+class _BadFloat:
+    def __init__(self, t): self.t = t
+    def __repr__(self): return f'<float text {self.t!r} is not canonical>'
+
+def ag_doc_decode(j):
+    """ordered rendering of the driver -> Python value (dictionaries in the order of the generated document)"""
+    if isinstance(j, list):
+        tag = j[0]
+        if tag == 'd': return {k: ag_doc_decode(v) for k, v in j[1]}
+        if tag == 'r': return _Rec((k, ag_doc_decode(v)) for k, v in j[1])
+        if tag == 'f':
+            try: return float(j[1]) if repr(float(j[1])) == j[1] else _BadFloat(j[1])
+            except ValueError: return _BadFloat(j[1])
+        if tag == 'l': return [ag_doc_decode(v) for v in j[1]]
+        if tag == 't': return {k: (v if k == 'name' else json.loads(v)) for k, v in j[1]}
+        if tag == 'j':
+            e = _Extras(json.loads(j[1])); e.text = j[1]
+            return e
+        raise ValueError(f'bad ordered rendering {j!r:.80}')
+    return j
+
+def ag_doc_encode(doc):
+    """a REAL attack-graph document (what `_to_dict()` returned / the file layer loaded) in the ordered rendering, for the
+    generated `_from_dict` (driver op `gen_ag_fromdict`)"""
+    from .langgen import jtxt
+    def atom(k, v):
+        if isinstance(v, dict):
+            if k == 'ttc': return ['t', [[a, b if (a == 'name' and isinstance(b, str)) else json.dumps(b, separators=(',', ':'))] for a, b in v.items()]]
+            if k == 'extras' and v: return ['j', jtxt(v)]
+            return ['d', [[a, b] for a, b in v.items()]]
+        if isinstance(v, list): return ['l', list(v)]
+        return v
+    return ['d', [[top, ['d', [[name, ['d', [[k, atom(k, v)] for k, v in entry.items()]]] for name, entry in entries.items()]]]
+                  for top, entries in doc.items()]]
+
+def doc_same(real, gen, ordered=True, relax=()) -> bool:
+    """the generated document is the real one: same keys IN THE SAME ORDER (`ordered`), keys and scalars of the same Python
+    type (1, 1.0, True, '1' are four different things), lists element by element.  Below a key listed in `relax`, and inside
+    an `extras` value of the generated side, dictionaries are compared without order."""
+    if isinstance(gen, _Extras):
+        # the convention of the heaps: an `extras` dictionary IS its canonical JSON text (`langgen.jtxt`: sorted keys, keys that
+        # are not strings tagged, `1` / `1.0` / `true` distinct)
+        from .langgen import jtxt
+        return isinstance(real, dict) and jtxt(real) == gen.text
+    if isinstance(real, dict):
+        if not isinstance(gen, dict) or len(real) != len(gen): return False
+        kr, kg = list(real), list(gen)
+        if ordered and not isinstance(gen, _Rec):
+            if any(type(a) is not type(b) or a != b for a, b in zip(kr, kg)): return False
+        elif {(type(a), a) for a in kr} != {(type(b), b) for b in kg}: return False
+        return all(doc_same(real[k], gen[k], ordered and k not in relax, relax) for k in kr)
+    if isinstance(real, (list, tuple)):
+        return isinstance(gen, (list, tuple)) and len(real) == len(gen) and all(doc_same(a, b, ordered, relax) for a, b in zip(real, gen))
+    return type(real) is type(gen) and real == gen
+
+def doc_first_difference(real, gen, path='') -> str:
+    """where two documents differ first (for the replay file)"""
+    if isinstance(real, dict) and isinstance(gen, dict):
+        if isinstance(gen, (_Rec, _Extras)) and {(type(k).__name__, k) for k in real} == {(type(k).__name__, k) for k in gen}:
+            gen = {k: gen[k] for k in real}
+        if [(type(k).__name__, k) for k in real] != [(type(k).__name__, k) for k in gen]:
+            return f'{path}: keys {list(real)!r:.160} (impl) vs {list(gen)!r:.160} (generated)'
+        for k in real:
+            d = doc_first_difference(real[k], gen[k], f'{path}/{k}')
+            if d: return d
+        return ''
+    if isinstance(real, list) and isinstance(gen, list) and len(real) == len(gen):
+        for i, (a, b) in enumerate(zip(real, gen)):
+            d = doc_first_difference(a, b, f'{path}[{i}]')
+            if d: return d
+        return ''
+    return '' if (type(real) is type(gen) and real == gen) else f'{path}: {real!r:.120} (impl) vs {gen!r:.120} (generated)'
+
+def ag_doc_compare(real, gen_rendered, res=None, ttc_touched=True):
+    """-> None when the generated `_to_dict` document is the real one, else a description of the first difference.  The
+    order of the keys INSIDE a `ttc` value is compared too; where only that differs it is counted and accepted (the heap of
+    the generated side is built from the canonical `ttc` text of the operation: after the harness wrote `ttc['touched']`
+    the real dictionary has the new key last, the canonical text has it in sorted position - glue, not translation;
+    `ttc_touched`: the history contains such a write - otherwise the inner order must agree too)."""
+    if isinstance(gen_rendered, dict) and 'error' in gen_rendered:
+        return 'the generated _to_dict raises ' + str(gen_rendered['error'])
+    gen = ag_doc_decode(gen_rendered)
+    if doc_same(real, gen): return None
+    if ttc_touched and doc_same(real, gen, relax=('ttc',)):
+        if res is not None: res.bump('generated_code_documents_ttc_inner_key_order_differs(glue)')
+        return None
+    return doc_first_difference(real, gen) or 'documents differ (order inside extras / ttc)'
+
+def ag_exact_obs(o):
+    """an observation of `Impl.obs` / `obsH` with the `ttc` texts normalised, list orders KEPT"""
+    if o is None: return None
+    c = dict(o); c['nodes'] = [list(n) for n in o['nodes']]
+    for n in c['nodes']:
+        if len(n) > 7 and n[7][2] != 'null':
+            n[7] = list(n[7]); n[7][2] = _ttc(n[7][2])
+    return c
+
+def m_doc_encode(x, key=None):
+    """a REAL instance-model document (what `Model._to_dict()` returned / the file layer loaded / a hand-edited one) in the
+    ordered rendering, for the generated `Model._from_dict` (driver op `gen_load_doc`): dictionaries with their key order and
+    key types, an `extras` dictionary as canonical JSON text, floats as their canonical text; a number under `defenses` is
+    what `float(...)` makes of it (the call `_from_dict` applies to it)"""
+    from .langgen import jtxt
+    if isinstance(x, dict):
+        if key == 'extras': return ['j', jtxt(x)]
+        if key == 'defenses':
+            return ['d', [[k, ['f', repr(float(v))] if isinstance(v, (int, float)) and not isinstance(v, bool) else m_doc_encode(v)] for k, v in x.items()]]
+        return ['d', [[k, m_doc_encode(v, k)] for k, v in x.items()]]
+    if isinstance(x, (list, tuple)): return ['l', [m_doc_encode(v) for v in x]]
+    if isinstance(x, float): return ['f', repr(x)]
+    return x
+
+def m_doc_compare(real, gen_rendered):
+    """-> None when the generated `Model._to_dict` document is the real one (key order of every dictionary whose keys are
+    computed; key SET of the fixed-key dictionaries; key and value types), else where they differ first"""
+    if isinstance(gen_rendered, dict) and 'error' in gen_rendered:
+        return 'the generated _to_dict raises ' + str(gen_rendered['error'])
+    gen = ag_doc_decode(gen_rendered)
+    if doc_same(real, gen): return None
+    return doc_first_difference(real, gen) or 'documents differ (inside extras)'
